@@ -3,6 +3,8 @@
 # applies the patch to /repo, runs the checks, restores /repo.
 patch="$1"; tier="$2"; shift 2
 cd /repo || exit 2
+# the evidence files in /verif must keep describing the unchanged tree
+rm -rf /verif/work/evidence.keep && mkdir -p /verif/work && cp -r /verif/evidence /verif/work/evidence.keep
 git apply --check "$patch" || { echo "patch does not apply"; exit 2; }
 git apply "$patch"
 for p in "$@"; do
@@ -15,3 +17,4 @@ git checkout -- .
 cd /verif/harness && cargo build --offline >/dev/null 2>&1
 # the generated Lean files must describe the restored tree again
 mkdir -p /verif/work && /verif/harness/target/debug/mtharness tables /verif/work/tables.txt >/dev/null 2>&1 && python3 /verif/tools/gen_tables.py /verif/work/tables.txt /verif/lean/Memterm/Generated/Tables.lean >/dev/null
+rm -rf /verif/evidence && mv /verif/work/evidence.keep /verif/evidence
